@@ -12,7 +12,10 @@ open Cctz Cctz.Bytes Cctz.Format Cctz.Parse Cctz.Spec
 /-- the integer reader: on success the value is the decimal value of the digits it consumed (with
 sign), lies in [min, max], at least one digit was consumed, and at most `width` characters when a
 width is given -/
-def parseInt_statement : Prop :=
+/- NOTE: this first wording (with `kmin < v`) is FALSE — the reader accepts `kmin` itself after a '-'
+   (that is how "-9223372036854775808" parses); kept only as the subject of `parseInt_counterexample`.
+   The property theorem is `parseInt : parseInt_statement` below. -/
+def parseInt_strict_statement : Prop :=
   ∀ (kmin : Int) (dp rest : Bytes) (width min max v : Int), kmin < 0 →
     parseInt kmin dp width min max = some (rest, v) →
     min ≤ v ∧ v ≤ max ∧ kmin < v ∧ v ≤ -(kmin + 1) ∧
@@ -60,5 +63,82 @@ def constants_statement : Prop :=
   Gen.parse_M = (2, 0, 59) ∧ Gen.parse_S = (2, 0, 60) ∧ Gen.parse_U = (0, 0, 53) ∧ Gen.parse_W = (0, 0, 53) ∧
   Gen.parse_u = (0, 1, 7) ∧ Gen.parse_w = (0, 0, 6) ∧ Gen.parse_E4Y = (4, -999, 9999) ∧
   Gen.parseOff_hours = (2, 0, 23) ∧ Gen.parseOff_minutes = (2, 0, 59) ∧ Gen.parseOff_seconds = (2, 0, 59)
+
+/-! ## Proofs -/
+
+theorem constants : constants_statement := by
+  unfold constants_statement
+  decide
+
+/-- `parseInt_strict_statement` is FALSE as written: after a '-' the reader accepts `kmin` itself
+(that is how "-9223372036854775808" parses), so `kmin < v` cannot hold.  Witness: kmin = -10 and
+the text "-10". -/
+theorem parseInt_counterexample : ¬ parseInt_strict_statement := by
+  intro h
+  have h1 : parseInt (-10) [45, 49, 48] 0 (-100) 100 = some ([], -10) := by decide +kernel
+  have := h (-10) [45, 49, 48] [] 0 (-100) 100 (-10) (by decide) h1
+  omega
+
+/-- the same failure at the type the C++ instantiates: INT64_MIN is accepted by `ParseInt<int64>` -/
+theorem parseInt_counterexample_i64 :
+    parseInt64 (ofString "-9223372036854775808") 0 i64min i64max = some ([], i64min) := by
+  decide +kernel
+
+/-- corrected statement: `kmin ≤ v`, and `v = kmin` only behind a '-' sign; everything else as in
+`parseInt_strict_statement` -/
+def parseInt_statement : Prop :=
+  ∀ (kmin : Int) (dp rest : Bytes) (width min max v : Int), kmin < 0 →
+    parseInt kmin dp width min max = some (rest, v) →
+    min ≤ v ∧ v ≤ max ∧ kmin ≤ v ∧ (v = kmin → dp.headD 0 = 45) ∧ v ≤ -(kmin + 1) ∧
+    ∃ used : Bytes, dp = used ++ rest ∧ used ≠ [] ∧ (width > 0 → (used.length : Int) ≤ width) ∧
+      ((∃ ds, used = ds ∧ ds ≠ [] ∧ (∀ c ∈ ds, isDigit c = true) ∧ v = numVal ds) ∨
+       (∃ ds, used = 45 :: ds ∧ ds ≠ [] ∧ (∀ c ∈ ds, isDigit c = true) ∧ v = -numVal ds ∧ v ≠ 0))
+
+theorem parseInt_spec : parseInt_statement := by
+  intro kmin dp rest width min max v hk h
+  exact Pa.parseInt_sound kmin dp rest width min max v hk h
+
+/-- the hypotheses are satisfiable on non-trivial values -/
+example : parseInt32 (ofString "-07x") 3 (-99) 99 = some (ofString "x", -7) := by decide +kernel
+example : parseInt32 (ofString "2024-") 4 (-999) 9999 = some (ofString "-", 2024) := by decide +kernel
+
+theorem field_ranges : field_ranges_statement := by
+  intro sp fmt input z sec fsv _ c v hm
+  exact Pa.parse_fields_range sp fmt input z (c, v) hm
+
+/-- the hypothesis is satisfiable: a successful parse with six accepted fields (leap second) -/
+example :
+    (parse (fun _ _ _ => none) (ofString "%Y-%m-%d %H:%M:%S") (ofString "2024-02-29 23:59:60")
+      (Tz.resetToBuiltinUTC 0).val).val.1 = .ok 1709251200 0 ∧
+    (parse (fun _ _ _ => none) (ofString "%Y-%m-%d %H:%M:%S") (ofString "2024-02-29 23:59:60")
+      (Tz.resetToBuiltinUTC 0).val).val.2.fields =
+        [(89, 2024), (109, 2), (100, 29), (72, 23), (77, 59), (83, 60)] := by
+  decide +kernel
+
+theorem subseconds : subseconds_statement := by
+  intro dp rest v h
+  exact Pa.parseSubSeconds_sound dp rest v h
+
+example : parseSubSeconds (ofString "1234567890123456789Z") = some (ofString "Z", 123456789012345) := by
+  decide +kernel
+
+theorem offset : offset_statement := by
+  intro dp rest sep off h
+  exact Pa.parseOffset_range dp rest sep off h
+
+example : parseOffset (ofString "-23:59:59") 58 = some ([], -86399) := by decide +kernel
+
+theorem percent_s : percent_s_statement := by
+  intro z t ht
+  exact Pa.parse_percent_s _ z t ht
+
+example : inI64 i64min ∧ inI64 (-1) ∧ inI64 i64max := by decide
+
+theorem parse_safe : parse_safe_statement := by
+  intro sp fmt input
+  apply Pa.specLoop_safe
+  have : (cstr fmt).length ≤ fmt.length := Pa.length_takeWhile_le fmt
+  show (cstr fmt).length + 1 ≤ _
+  omega
 
 end Cctz.C09
